@@ -34,14 +34,14 @@ import tornado.websocket  # noqa: F401
 from tornado.platform import asyncio as tpa
 
 from sim.env import SimEnv, ModProxy, UNIT
-from sim.threads import (Baton, BatonLoop, SimSelect, sim_threading, line_tracer,
+from sim.threads import (Baton, BatonAbort, BatonLoop, SimSelect, sim_threading, line_tracer,
                          ForkRunner, DONE, BLOCKED)
 
 ID = "C40"
 LEVEL = "exploration"
 QUICK_N = 10000
 THOROUGH_N = 200_000
-CHUNK = 400
+CHUNK = 100
 WALL = 30.0
 RULE = ("gen(seed): 1-4 fds with per-dispatch callback action lists (consume all/some, "
         "remove, re-register, remove+close fd, close selector, add writer), an op list on the "
@@ -242,6 +242,7 @@ def _child(request, result):
     W.phase = "setup"
     W.outcome = []
     W.raised = 0  # workload callbacks that raised on purpose
+    W.verdict = None  # set when the run is abandoned in place (see finish)
 
     def bad(rule, msg, key=None):
         for v in viol:
@@ -299,24 +300,38 @@ def _child(request, result):
         nontrivial = bool(started and sched.preempts >= 1 and W.dispatches >= 1)
         # clean = this process can host another run: no thread left behind
         clean = fatal is None and all(t.state == DONE for t in sched.threads[1:])
-        if clean:
-            loop.sched = None
-            loop.block_hook = None
-            sel = state["sel"]
-            if sel is not None:
-                # finish the thread manager's async generator now (its finalizer would
-                # otherwise run at some later collection, against a closed loop)
-                try:
-                    sel._selector._thread_manager_handle.aclose().send(None)
-                except BaseException:  # noqa: BLE001 - StopIteration and friends
-                    pass
-        result.send({
+        payload = {
             "violations": viol, "nontrivial": nontrivial, "stats": st,
             "log_head": log.head[:120],
             "log_full": log.full,
-            "outcome": ({"status": W.outcome, "steps": sched.steps,
-                                 "threads": sched.describe(), "dispatches": W.dispatches}),
-        }, clean=clean)
+            "outcome": {"status": W.outcome, "steps": sched.steps,
+                        "threads": sched.describe(), "dispatches": W.dispatches},
+        }
+        if clean:
+            retire()
+            result.send(payload, clean=True)
+        elif result.can_leak():
+            # abandon the run in place: the verdict is final, the scheduler goes dead, the
+            # main thread unwinds to _child() (Baton.fatal raises BatonAbort there, or we
+            # are already at its end) and delivers it; parked threads stay parked
+            W.verdict = payload
+            sched.dead = True
+            loop.sched = None
+            loop.block_hook = None
+        else:
+            result.send(payload, clean=False)
+
+    def retire():
+        loop.sched = None
+        loop.block_hook = None
+        sel = state["sel"]
+        if sel is not None:
+            # finish the thread manager's async generator now (its finalizer would
+            # otherwise run at some later collection, against a closed loop)
+            try:
+                sel._selector._thread_manager_handle.aclose().send(None)
+            except BaseException:  # noqa: BLE001 - StopIteration and friends
+                pass
 
     sched = Baton(env.tapes.draw, log, max_steps=30000 if knobs.get("line") else 5000,
                   fair_cap=8000 if knobs.get("line") else 2000, on_fatal=lambda kind, detail: finish((kind, detail)))
@@ -645,8 +660,7 @@ def _child(request, result):
         env.loop_errors.append((str(context.get("message", "")).split("(")[0][:60], name))
         log.ev("loop_error", name)
 
-    with env:
-        loop.set_exception_handler(on_loop_error)
+    def _run_world():
         if knobs.get("line"):
             sched.tracer = line_tracer(sched, ("tornado/platform/asyncio.py",))
             sys.settrace(sched.tracer)
@@ -741,6 +755,18 @@ def _child(request, result):
             sys.settrace(None)
             tpa.threading, tpa.select, tpa.socket = saved
         finish()
+
+    try:
+        with env:
+            loop.set_exception_handler(on_loop_error)
+            _run_world()
+    except BatonAbort:
+        pass
+    finally:
+        sys.settrace(None)
+    if W.verdict is not None and not result.sent:
+        retire()
+        result.send(W.verdict, leaked=True)
 
 
 _frozen = []
